@@ -154,6 +154,16 @@ T.append(tree('D17 ini crossing', cmd('app', 'root', subOpt=True, extra=[grp('Ap
     cmds=[cmd('Add', 'exec', subOpt=True, extra=[grp('Extra Options', [opt('', 'name', 'scalar', 'string')])], cmds=[
               cmd('subCmd', 'exec', extra=[grp('Sub', [opt('', 'leaf', 'scalar', 'string')])])])])))
 
+# D18 three levels of commands with optional sub-commands in the middle, a required option at the bottom, options at every level:
+# the tree on which a second ParseArgs of one parser (model parameter PreMode = "cmds") is enumerated after every command path
+T.append(tree('D18 deep reuse', cmd('app', 'root', extra=[grp('Application Options', [opt('v', 'verbose')])], cmds=[
+    cmd('remote', 'exec', subOpt=True, aliases=['r'], extra=[grp('Remote', [opt('u', 'url', 'scalar', 'string')])], cmds=[
+        cmd('branch', 'exec', subOpt=True, extra=[grp('Branch', [opt('b', 'bee', 'slice', 'string')])], cmds=[
+            cmd('rename', 'exec', extra=[grp('Rename', [opt('n', 'name', 'scalar', 'string', required=True)])]),
+            cmd('drop', 'exec', extra=[grp('Drop', [opt('f', 'force')])])]),
+        cmd('ls', 'exec', extra=[grp('Ls', [opt('l', 'long')])])]),
+    cmd('init', 'exec', extra=[grp('Init', [opt('q', 'quiet')])])])))
+
 with open('argparse.ndjson', 'w') as f:
     for i, t in enumerate(T, 1):
         t['id'] = i
